@@ -431,6 +431,7 @@ class C07Monitor(Monitor):
         self.seed = state.config["simulation"]["seed"]
         self.restart_locked = len(state.locked0)
         self.restarted = "restarted_from" in state.config["current"]
+        self.c0 = int(state.cstep)
 
     def pre_prep(self, md):
         self.reissue = bool(self.sim.state.locked0)
@@ -472,7 +473,7 @@ class C07Monitor(Monitor):
                                 f"generator of its seed sequence (already used or shared)")
         sim.k.log(ev="streams", jid=jid, reissue=self.reissue, ens=info["ens"], paths=info["paths"],
                   streams=streams, restarted=self.restarted, restart_locked=self.restart_locked,
-                  workers=int(st.workers))
+                  workers=int(st.workers), c0=self.c0)
 
     def pre_job(self, jid, job):
         self.g0 = global_rng_digest()
